@@ -326,7 +326,8 @@ def run_subcheck(mod, sc: SubCheck, tier: str, seedval: int, n_examples: int, kn
             try:
                 run_body(case)
             except Violation as v:
-                violation = {"subcheck": sc.name, "case": to_jsonable(case), "detail": v.detail}
+                # a body that drives an external search (fuzzer) hands back the failing input as the replay case
+                violation = {"subcheck": sc.name, "case": to_jsonable(v.info.get("replay_case", case)), "detail": v.detail}
                 break
         ev.wall_s = time.time() - t0
         return ev.to_dict(), violation
